@@ -19,7 +19,7 @@ META = {
              "N_j, or an empty synthetic catalog, or an undersampled / empty observation; distinct = digest(forecast, observation, test)."),
     "assumptions": ["statistics re-implemented from docs/getting_started/theory.rst and the in-code docstrings (MLL sign follows the code docstring and the repository's unit tests)",
                     "reference gridding by construction (events strictly inside cells and magnitude bins)", "tolerance 1e-9*(1+|x|)"],
-    "deciding": ["e2e:N", "e2e:S", "e2e:M", "e2e:PL", "e2e:RM", "e2e:MLL", "post:_compute_likelihood", "post:MLL_score"],
+    "deciding": ["e2e:N", "e2e:S", "e2e:M", "e2e:PL", "e2e:RM", "e2e:MLL", "post:_compute_likelihood", "post:MLL_score", "ties:twin-catalogs"],
 }
 MANIFEST = {
     "technique": "independent re-implementation of the documented statistics as oracle over the real tests' results; runtime post-conditions on _compute_likelihood / cumulative_square_diff / MLL_score; RNG boundary log (numpy.random.choice) aligning each resampled test-distribution entry with its actual resample; status/None signalling checked on empty and undersampled observations",
@@ -45,11 +45,15 @@ def gen(rng, obs_mode=None, empty_mode=None):
         if empty_mode == "some" and j % 2:
             n = 0
         cats.append([(int(rng.choice(hot)), int(min(nmag - 1, rng.geometric(0.5) - 1))) for _ in range(n)])
-    mode = obs_mode or str(rng.choice(["normal", "normal", "empty", "single", "dense", "unsampled-some", "unsampled-all"]))
+    mode = obs_mode or str(rng.choice(["normal", "normal", "empty", "single", "dense", "unsampled-some", "unsampled-all", "twin"]))
     sampled = sorted({c for cat in cats for c, _ in cat})
     unsampled = [c for c in range(ncell) if c not in sampled]
     pool = sampled or list(range(ncell))
-    if mode == "empty":
+    if mode == "twin" and any(cats):
+        # the observation grids exactly like one of the synthetic catalogs (same events, another order): its statistic must tie with that catalog's
+        src = [c for c in cats if c][int(rng.integers(0, sum(1 for c in cats if c)))]
+        obs = [src[i] for i in rng.permutation(len(src))]
+    elif mode == "empty":
         obs = []
     elif mode == "single":
         obs = [(int(rng.choice(pool)), int(rng.integers(0, nmag)))]
@@ -175,6 +179,21 @@ def cmp_dist(ctx, rc, tags, test, got, want):
     return True
 
 
+def check_twins(ctx, rc, tags, nm, res, twins):
+    """Synthetic catalogs whose gridded counts equal the observation's have, by definition, exactly the observation's statistic: the
+    empirical quantiles must count them as ties (an error of twins/J otherwise)."""
+    if not twins:
+        return
+    ctx.mon("ties:twin-catalogs", 1)
+    d = numpy.asarray(res.test_distribution, dtype=float)
+    eq = int(numpy.sum(d == float(res.observed_statistic)))
+    if eq < twins:
+        ctx.violate("%s-test: synthetic catalogs gridding exactly like the observation do not tie with the observed statistic" % nm, rc,
+                    observed={"entries_equal_to_statistic": eq, "quantile": res.quantile, "statistic": float(res.observed_statistic),
+                              "nearest": float(d[numpy.argmin(numpy.abs(d - float(res.observed_statistic)))])},
+                    expected={"twin_catalogs": twins}, tags=dict(tags, clause="quantile-ties"))
+
+
 def ex_case(ctx, fc, source="memory", seed=0):
     import csep.core.catalog_evaluations as ce
     tmp = tempfile.mkdtemp(prefix="c10-", dir=os.environ.get("VERIF_TMP", "/var/tmp"))
@@ -281,6 +300,9 @@ def _run(ctx, fc, source, seed, tmp, rc, ce):
             # quantiles are the empirical probabilities (C09) of the result's own distribution and statistic (ties decided on the library's floats)
             ctx.violate("%s-test quantiles are not the empirical probabilities of the statistic" % nm, rc, observed=res.quantile,
                         expected=qpair(list(res.test_distribution), float(res.observed_statistic)), tags=dict(t2, clause="quantile"))
+        elif status == "normal":
+            twins = sum(1 for g in G if g.sum() > 0 and numpy.array_equal(g.sum(axis=1), obs_sp))
+            check_twins(ctx, rc, t2, nm, res, twins)
     # ---------------- M, RM, MLL
     union = sum(G).sum(axis=0)
     n_u = float(union.sum())
@@ -331,6 +353,9 @@ def _run(ctx, fc, source, seed, tmp, rc, ce):
             # quantiles are the empirical probabilities (C09) of the result's own distribution and statistic (ties decided on the library's floats)
             ctx.violate("%s-test quantiles are not the empirical probabilities of the statistic" % nm, rc, observed=res.quantile,
                         expected=qpair(list(res.test_distribution), float(res.observed_statistic)), tags=dict(t2, clause="quantile"))
+        elif nm == "M":
+            twins = sum(1 for g in G if g.sum() == n_obs and numpy.array_equal(g.sum(axis=0), obs_h))
+            check_twins(ctx, rc, t2, nm, res, twins)
         if res.status != "normal":
             ctx.violate("%s-test status" % nm, rc, observed=res.status, expected="normal", tags=dict(t2, clause="status"))
     if nt:
